@@ -380,7 +380,9 @@ class Interp:
             if isinstance(st, ast.Try):
                 try:
                     self.run(st.body, env)
-                except (Raised, StopIteration, KeyError, IndexError, AttributeError, ValueError, TypeError, ZeroDivisionError) as r:
+                except Exception as r:        # noqa: BLE001 -- the folded code's own handlers decide
+                    if isinstance(r, (_Return, _Break, _Continue, AnalysisError)):
+                        raise
                     text = r.text if isinstance(r, Raised) else type(r).__name__
                     parents = {'KeyError': ('LookupError',), 'IndexError': ('LookupError',)}.get(text, ())
                     for h in st.handlers:
@@ -398,11 +400,16 @@ class Interp:
                         if h.type is None or realmatch or any(text.startswith(n) or n in ('Exception', 'BaseException') or n in parents for n in names):
                             if h.name:
                                 env[h.name] = r
-                            env['__active_exc__'] = r if isinstance(r, Raised) else Raised(text)
+                            # a bare `raise` in the handler re-raises the very exception (real exception objects included)
+                            prev_active = env.get('__active_exc__', MISSING)
+                            env['__active_exc__'] = r if isinstance(r, (Raised, BaseException)) else Raised(text)
                             try:
                                 self.run(h.body, env)
                             finally:
-                                env.pop('__active_exc__', None)
+                                if prev_active is MISSING:
+                                    env.pop('__active_exc__', None)
+                                else:
+                                    env['__active_exc__'] = prev_active
                             break
                     else:
                         raise
